@@ -262,6 +262,16 @@ bool splinetable<Alloc>::read_fits_core(fitsfile* fits, const std::string& fileP
 					if(vlen>0 && value[valuelen-2]=='\'')
 						vlen--; //remove a trailing quote also
 				}
+				//a quote inside the string is written as two quotes; undo that in place
+				if(vbegin!=value){
+					char* out = value+1;
+					for(const char* in = vbegin; in < vbegin+vlen; in++){
+						*out++ = *in;
+						if(*in=='\'' && in+1 < vbegin+vlen && in[1]=='\'')
+							in++;
+					}
+					vlen = out-(value+1);
+				}
 				aux[i] = allocate<char_ptr>(2);
 				aux[i][0] = aux[i][1] = NULL;
 				aux[i][0] = allocate<char>(keylen);
